@@ -29,6 +29,9 @@ RULE = (
     "objects: class names valid, pairwise distinct, module executes. non-trivial = name whose image "
     "differs from the input or that belongs to a collision family; distinct = the name itself"
 )
+RULE += (
+    " Sub-check 'shared': one object schema with generated sibling names reached through 2-3 references of one document (property, items, anyOf member, additionalProperties; optionally the root itself a reference) via the documented loader - every occurrence must keep the JSON names and map them alike."
+)
 ASSUMPTIONS = [
     "identifier/keyword predicates are Python's own (str.isidentifier, keyword.iskeyword, compile())",
     "the exhaustive part uses _parse_attribute_name/_title_format as the fast path; the end-to-end path goes through parse_element",
@@ -225,6 +228,15 @@ def gen_cases(draw):
                 seen.add(image)
                 kept.append(n)
             ns = kept
+        if draw(st.integers(0, 2)) == 0 and ns and not any(n == "" for n in ns):
+            # the same object schema reached through 2-3 references of one document (after materialize all
+            # references share ONE dict, which the parser meets repeatedly): every occurrence must map its names
+            # the same way and keep the JSON names
+            return {"kind": "shared", "names": ns, "excluded": excluded,
+                    "title": draw(st.sampled_from([None, "Thing", "my thing"])),
+                    "positions": draw(st.lists(st.sampled_from(["prop", "prop", "items", "anyOf", "additional"]),
+                                               min_size=2, max_size=3)),
+                    "root_ref": draw(st.integers(0, 4)) == 0}
         return {"kind": kind, "names": ns, "excluded": excluded}
     if draw(st.integers(0, 3)) == 0:
         # titles that collide with the names de-duplication hands out (Foo, Foo -> Foo_1; explicit "Foo_1")
@@ -246,6 +258,92 @@ def gen_cases(draw):
 
 def skip_known(case_names):
     return False
+
+
+def shared_predicate(case, stats):
+    from vlib import docs
+    from statham.schema.parser import parse
+    from statham.schema.exceptions import SchemaParseError
+
+    ns = case["names"]
+    stats.excluded["sibling-image-collision"] += case.get("excluded", 0)
+    shared = {"type": "object", "properties": {n: {"type": "integer"} for n in ns}}
+    if case.get("title"):
+        shared["title"] = case["title"]
+    ref = {"$ref": "#/definitions/s"}
+    props = {}
+    for i, pos in enumerate(case["positions"]):
+        props["p%d" % i] = {"prop": ref, "items": {"type": "array", "items": ref}, "anyOf": {"anyOf": [ref, {"type": "null"}]},
+                           "additional": {"type": "object", "title": "Holder%d" % i,
+                                          "additionalProperties": ref}}[pos]
+    doc = {"type": "object", "title": "Root", "properties": props, "definitions": {"s": shared}}
+    if case.get("root_ref"):
+        doc["definitions"]["root"] = {k: doc.pop(k) for k in ("type", "title", "properties")}
+        doc["$ref"] = "#/definitions/root"
+    stats.case("sh:" + canon([ns, case["positions"], case.get("title"), case.get("root_ref")]), True, ["gen:shared"],
+               sample={"shared": ns, "positions": case["positions"]})
+    if observe._has_unaddressable({"x": shared}):  # noqa: SLF001
+        stats.excluded["not-loadable-through-json_ref_dict"] += 1
+        return []
+    try:
+        loaded = docs.materialized({"a.json": doc}, "a.json")
+    except Exception as exc:  # noqa: BLE001 - the loader is not statham
+        stats.inconclusive["loader-error:" + type(exc).__name__] += 1
+        return []
+    try:
+        elements = parse(loaded)
+    except SchemaParseError as exc:
+        return [fail("shared", ns, ["parse-refused:" + type(exc).__name__], detail=str(exc)[:200])]
+    except RecursionError:
+        stats.inconclusive["recursion"] += 1
+        return []
+    root = elements[0]
+    out = []
+    found = []
+    for i, pos in enumerate(case["positions"]):
+        holder = root.properties.get("p%d" % i)
+        if holder is None:
+            out.append(fail("shared", ns, ["position-missing"], position=i))
+            continue
+        el = holder.element
+        if pos == "items":
+            el = el.items
+        elif pos == "anyOf":
+            el = el.elements[0]
+        elif pos == "additional":
+            el = el.additionalProperties
+        found.append((i, pos, el))
+    for i, pos, cls in found:
+        if not isinstance(cls, ObjectMeta):
+            out.append(fail("shared", ns, ["occurrence-is-not-a-class"], position=[i, pos], got=repr(cls)[:100]))
+            continue
+        sources = sorted(p.source for p in cls.properties.values())
+        if sources != sorted(ns):
+            out.append(fail("shared", ns, ["json-names-lost-on-a-repeated-occurrence"], position=[i, pos],
+                            sources=sources, attributes=sorted(cls.properties)))
+            continue
+        for attr in cls.properties:
+            probs = name_problems("", attr)
+            if probs:
+                out.append(fail("shared", ns, probs, attribute=attr, position=[i, pos]))
+        value = {n: k for k, n in enumerate(ns)}
+        got = observe.verdict(cls, value)
+        if got[0] != "ok":
+            out.append(fail("shared", ns, ["instance-" + got[0]], position=[i, pos]))
+        else:
+            for attr, prop in cls.properties.items():
+                if getattr(got[1], attr, None) != value[prop.source]:
+                    out.append(fail("shared", ns, ["attribute-holds-a-sibling-value"], attribute=attr,
+                                    position=[i, pos]))
+                    break
+    classes = {}
+    for _, _, cls in found:
+        if isinstance(cls, ObjectMeta):
+            classes.setdefault(cls.__name__, []).append(cls)
+    for name, group in classes.items():
+        if any(g != group[0] for g in group[1:]):
+            out.append(fail("shared", ns, ["class-names-not-distinct"], class_name=name))
+    return out
 
 
 def predicate(case, stats):
@@ -292,6 +390,8 @@ def predicate(case, stats):
                         out.append(fail("siblings", ns, ["attribute-holds-a-sibling-value"], attribute=attr))
                         break
         return out
+    if kind == "shared":
+        return shared_predicate(case, stats)
     if kind == "dedupe":
         first, second = case["pair"]
         schema = {"type": "object", "title": "Root", "properties": {
